@@ -13,7 +13,8 @@ RULE = ("Lean (the models are tied to base.GetMethodT / base.GetClassMethodT by 
         "(the innermost enclosing definition is the parent: C27's superclass_innermost, tied by the findns stream). Non-trivial = a hierarchy with at least one inherited call.")
 
 
-def gen_case(rng, k):
+def gen_case(rng, k, plain=False):
+    """plain: without the constructs C23's structure parser does not know (nested classes, overrides of Object methods, namespace wrap)"""
     lines = []
     mods = []
     for m in range(rng.randint(0, 2)):
@@ -58,7 +59,7 @@ def gen_case(rng, k):
         if info["inc"] and rng.random() < 0.6:
             lines += ["  def ci%d_%d" % (k, c), "    %s" % info["inc"][0], "  end"]
             info["pub"].append("ci%d_%d" % (k, c))
-        if rng.random() < 0.25:
+        if not plain and rng.random() < 0.25:
             om = rng.choice(["to_s", "inspect"])
             lines += ["  def %s" % om, "    %d" % (7 + c), "  end"]           # overrides Object's method with another return type
             info["over"] = om
@@ -85,7 +86,7 @@ def gen_case(rng, k):
             mname = "pt%d_%d" % (k, c)
             lines += ["  protected", "  def %s" % mname, "    4", "  end"]
             info["prot"].append(mname)
-        if rng.random() < 0.25:
+        if not plain and rng.random() < 0.25:
             # a class nested after the visibility sections: its body starts public again
             lines += ["  class In%d_%d" % (k, c), "    def inn%d_%d" % (k, c), "      5", "    end", "  end"]
             info["inner"] = ("In%d_%d" % (k, c), "inn%d_%d" % (k, c))
@@ -163,7 +164,7 @@ def gen_case(rng, k):
         lines.append("ou%d.pko%d(%s.new(%s))" % (k, k, x["name"], ", ".join(["1"] * (init or 0))))
         expect_bad.add(row)
     first_call_row = next(i + 1 for i, l in enumerate(lines) if " = Cl" in l)
-    if rng.random() < 0.3:
+    if not plain and rng.random() < 0.3:
         # the whole group inside a namespace: unqualified superclasses, includes and extends are resolved lexically
         ns = "Nw%d" % k
         defs = ["module " + ns] + [("  " + l) if l else l for l in lines[:first_call_row - 1]] + ["end"]
